@@ -448,6 +448,56 @@ func chainCarry(rec *hx.Recorder) {
 	rec.Eval("chain-carry", n)
 }
 
+// saturatedScratch: what a record is decoded into must not depend on what
+// earlier records left in any buffer the decoder reuses. A definition with
+// 255 fields and 255 developer fields none of whose bytes is zero comes
+// first (it fills a scratch buffer of any plausible size with non-zero
+// bytes); then, for every string field of every known message and for field
+// sizes 1, the profile length and 255, a record whose string fills its field
+// completely with non-zero bytes (no terminator anywhere in sight).
+func saturatedScratch(rec *hx.Recorder) {
+	fileIDDef := fitmodel.Rec{IsDef: true, Local: 0, Global: 0, Fields: []fitmodel.FieldDef{{Num: 0, Size: 1, Base: 0x00}}}
+	wide := fitmodel.Rec{IsDef: true, Local: 5, Global: 0xFF77, HasDev: true}
+	for i := 0; i < 255; i++ {
+		wide.Fields = append(wide.Fields, fitmodel.FieldDef{Num: byte(i + 1), Size: 1, Base: 0x02})
+		wide.Dev = append(wide.Dev, fitmodel.DevFieldDef{Num: byte(i + 1), Size: 1, Idx: byte(1 + i%7)})
+	}
+	wideData := fitmodel.Rec{Local: 5, Raw: bytes.Repeat([]byte{0x5A}, 510)}
+	tab := prof.Table()
+	n := int64(0)
+	for _, g := range prof.MsgNums() {
+		for _, num := range prof.FieldNums(g) {
+			fi := tab.Msgs[g].Fields[num]
+			if !fitmodel.MustBase(fi.Base).String || fi.Array {
+				continue
+			}
+			for _, size := range []int{1, fi.Length, 255} {
+				if size < 1 || size > 255 {
+					continue
+				}
+				for _, withData := range []bool{false, true} {
+					def := fitmodel.Rec{IsDef: true, Local: 1, Global: g, Fields: []fitmodel.FieldDef{{Num: num, Size: byte(size), Base: 0x07}}}
+					data := fitmodel.Rec{Local: 1, Raw: bytes.Repeat([]byte{'A'}, size)}
+					st := &fitmodel.Stream{HeaderSize: 12, Proto: 0x20, Recs: []fitmodel.Rec{fileIDDef, {Local: 0, Raw: []byte{4}}, wide}}
+					if withData {
+						st.Recs = append(st.Recs, wideData)
+					}
+					st.Recs = append(st.Recs, def, data, data)
+					img := st.Bytes()
+					n++
+					if msg, _ := guarded(0, "saturated-scratch", img, gen.NoFault("whole", 0), allEntries); msg != "" {
+						rec.Fail("saturated-scratch", "", fmt.Sprintf("%s\nmessage %d field %d (string) defined with size %d and filled completely, after a 255+255-field definition without a zero byte", msg, g, num, size),
+							byteCase{Data: hex.EncodeToString(img), Chunk: gen.NoFault("whole", 0)})
+						return
+					}
+				}
+			}
+		}
+	}
+	rec.Eval("saturated-scratch", n)
+	rec.NonTrivialEnum(n)
+}
+
 // stdLogger: the option that logs to standard error, in a process whose
 // standard error is closed, unwritable, or nil (a daemon, `2>&-`): logging is
 // a side channel, the entry points still return instead of panicking.
@@ -630,6 +680,7 @@ func TestC01(t *testing.T) {
 		if hx.FirstShard() {
 			grid(t, rec) // enumerations run once, the rapid search in every shard
 			chainCarry(rec)
+			saturatedScratch(rec)
 			stdLogger(rec)
 		}
 
